@@ -306,6 +306,8 @@ class World(object):
                     ev['ids'] = [self.read(inst, n, 'UNIQUE_ID') for n in slots]
                 if self.genkind == 'int':
                     ev['g'] = self.m.id_generator.peek() - 1
+                elif self.genkind == 'user':
+                    ev['g'] = self.m.id_generator.k - 1   # ids the harness' own generator has handed out
             return ev, 'none'
         if name == 'NewUnknown':
             ev.update({'c': act[1]})
